@@ -12,10 +12,13 @@ def run(tier, seed):
     _, rep_e, ne = enginecommon.histories(v, wd, "engine", d)
     _, rep_n, nn = enginecommon.histories(v, wd, "engine", d, initset="notagblock")
     # deeper histories over tag assignment / discard / query only: free-then-reallocate sequences
-    _, rep_t, nt = enginecommon.histories(v, wd, "blocker", 6 if tier == "quick" else 7, ops="tags")
+    _, rep_t, nt = enginecommon.histories(v, wd, "blocker", 5 if tier == "quick" else 7, ops="tags")
     enginecommon.any_alloc(v, wd, "blocker", 3 if tier == "quick" else 5)
     if tier == "thorough":
         enginecommon.dev_selftest(v, wd)
+    runs, nops = (2, 800) if tier == "quick" else (10, 3000)
+    enginecommon.longhist_stage(v, wd, seed, "blocker", runs, nops)
+    enginecommon.longhist_stage(v, wd, seed, "engine", runs, nops)
     vlib.require(rep_b["nontrivial"] > 50 and rep_e["nontrivial"] > 50, "history replay too small")
     v.assumptions += [
         "time is modelled by explicit discards (discard_regex on every entry) and by an aggressive discard policy (1ns/0) configuration; the real clock is not otherwise controlled",
